@@ -41,6 +41,8 @@ def tagger(s: Sym, node: Any, inherit: Sequence[V]) -> Optional[set]:
             return {"RAW", "OPTIONAL", "ALIAS_META"}
         if fn == "get" and isinstance(f, ast.Attribute) and isinstance(f.value, ast.Attribute) and f.value.attr == "aliases":
             return {"RAW", "OPTIONAL", "ALIAS_CFG"}
+        if fn == "__get_field_alias":
+            return {"!RESET", "RAW", "OPTIONAL", "ALIAS"}
         if fn in IDENT_MAKERS:
             return {"!RESET", "IDENT"}
         if fn == "get_type_name_identifier":
@@ -171,7 +173,7 @@ def symbolic_spec(ev: Evaluator, p: Path, expression: Optional[V] = None, **over
 
 
 # --------------------------------------------------------------------------- emission-site census
-EMIT_ATTRS = {"append", "add_line", "indent", "extend"}
+EMIT_ATTRS = {"append", "add_line", "indent"}  # extend() only splices already-emitted lines
 
 
 def lines_receivers(fi: FuncInfo) -> set:
